@@ -524,7 +524,7 @@ pub fn generate(sink: &mut Sink, rng: &mut Rng, n: u64) {
     }
     // whitespace table: exhaustive over the BMP in the quick tier, all scalar values in the thorough tier;
     // case-mapping law: exhaustive over all scalar values in the thorough tier, the first 0x3000 otherwise
-    let thorough = n >= 50_000;
+    let thorough = n >= 20_000;
     let (ws_hi, case_hi) = if thorough { (0x110000u32, 0x110000u32) } else { (0x10000, 0x3000) };
     let mut lo = 0u32;
     while lo < ws_hi {
